@@ -199,8 +199,13 @@ class IH(NumpyHooks):
         if obj is NPV:
             if name in ('result_type', 'promote_types', 'dtype'):
                 return Builtin('np.' + name, lambda *a, **k: DT)
+            if name == 'issubdtype':
+                # the value-level model is dtype-agnostic (dtypes are the
+                # business of R5): symbolic values are numeric and inexact
+                return Builtin('np.issubdtype', lambda *a: True)
             if name in ('float16', 'float32', 'float64', 'complex64',
-                        'complex128'):
+                        'complex128', 'inexact', 'floating', 'number',
+                        'integer', 'complexfloating'):
                 return Opaque('np.' + name)
             if name == 'searchsorted':
                 def ss(cvec, xi, **k):
@@ -412,78 +417,80 @@ def run(model, how, schemes, case_tuple, with_out=False, vals=None):
 
 
 # ---------------------------------------------------------------------------
-# R5: dtype-kind interpretation (arrays are abstracted to their dtype kind)
+# R5: dtype interpretation -- arrays are abstracted to their NumPy dtype;
+# promotion and casting rules are NumPy's own tables (np.result_type,
+# np.can_cast)
 # ---------------------------------------------------------------------------
-KORD = {'b': 0, 'i': 1, 'f': 2, 'c': 3}
-
-
-def kjoin(*ks):
-    return max(ks, key=lambda k: KORD[k])
+import numpy as _rnp
 
 
 class KArr(object):
-    def __init__(self, kind):
-        self.kind = kind
+    def __init__(self, dt):
+        self.dt = _rnp.dtype(dt)
 
     def __repr__(self):
-        return 'KArr(%s)' % self.kind
+        return 'KArr(%s)' % self.dt
 
     def __len__(self):
         return NN
 
 
 class KDt(object):
-    def __init__(self, kind):
-        self.kind = kind
+    model_eq = True
+
+    def __init__(self, dt):
+        self.dt = _rnp.dtype(dt)
 
     def __eq__(self, o):
-        return isinstance(o, KDt) and o.kind == self.kind
+        return isinstance(o, KDt) and o.dt == self.dt
 
     def __ne__(self, o):
         return not self == o
 
     def __hash__(self):
-        return hash(self.kind)
+        return hash(self.dt)
+
+    def __repr__(self):
+        return 'dtype(%s)' % self.dt
 
 
-def kind_of(v):
-    """Kind of an operand and whether it is a weakly typed Python scalar."""
+def np_operand(v):
+    """What np.result_type should see for an operand."""
     if isinstance(v, KArr):
-        return v.kind, False
+        return v.dt
     if isinstance(v, bool):
-        return 'b', True
+        return v
     if isinstance(v, int):
-        return 'i', True
-    if isinstance(v, (float, Fr)) or (isinstance(v, Rat)):
-        if isinstance(v, Rat) and v.is_const() and \
-                v.constant().denominator == 1 and False:
-            return 'i', True
-        return 'f', True
+        return 1
+    if isinstance(v, (float, Fr, Rat)):
+        return 1.0
     if isinstance(v, complex):
-        return 'c', True
-    raise Undecided('dtype kind of %r' % (v,))
+        return 1j
+    raise Undecided('dtype of %r' % (v,))
 
 
-def as_kind(d):
+def as_np_dt(d):
     if isinstance(d, KDt):
-        return d.kind
+        return d.dt
     if isinstance(d, Builtin) and d.name in ('float', 'int', 'complex',
                                              'bool'):
-        return {'float': 'f', 'int': 'i', 'complex': 'c', 'bool': 'b'}[
-            d.name]
-    if isinstance(d, Opaque) and d.desc.startswith('np.float'):
-        return 'f'
-    if isinstance(d, Opaque) and d.desc.startswith('np.complex'):
-        return 'c'
-    if isinstance(d, Opaque) and d.desc.startswith('np.int'):
-        return 'i'
+        return _rnp.dtype({'float': float, 'int': int, 'complex': complex,
+                           'bool': bool}[d.name])
+    if isinstance(d, Opaque) and d.desc.startswith('np.'):
+        try:
+            return _rnp.dtype(getattr(_rnp, d.desc[3:]))
+        except (AttributeError, TypeError):
+            pass
+    if isinstance(d, str):
+        return _rnp.dtype(d)
     raise Undecided('dtype %r' % (d,))
 
 
 class KH(Hooks):
-    def __init__(self, vkind):
-        self.vkind = vkind
+    def __init__(self, vdt):
+        self.vdt = _rnp.dtype(vdt)
         self.events = []
+        self.search_dt = []
 
     def on_name(self, interp, name):
         if name == 'product':
@@ -501,7 +508,7 @@ class KH(Hooks):
     def on_getattr(self, interp, obj, name):
         if isinstance(obj, KArr):
             if name == 'dtype':
-                return KDt(obj.kind)
+                return KDt(obj.dt)
             if name == 'ndim':
                 return 1
             if name == 'shape':
@@ -510,14 +517,16 @@ class KH(Hooks):
                 return NN
             if name == 'astype':
                 def astype(dt, casting='unsafe', **k):
-                    k2 = as_kind(dt)
-                    if casting == 'safe' and KORD[k2] < KORD[obj.kind]:
+                    d2 = as_np_dt(dt)
+                    if not _rnp.can_cast(obj.dt, d2, casting):
                         raise PyRaise('TypeError')
-                    return KArr(k2)
+                    return KArr(d2)
                 return Builtin('astype', astype)
         if obj is NPV:
             if name in ('float16', 'float32', 'float64', 'complex64',
-                        'complex128', 'int32', 'int64'):
+                        'complex128', 'int8', 'int16', 'int32', 'int64',
+                        'uint8', 'floating', 'inexact', 'integer', 'number',
+                        'complexfloating'):
                 return Opaque('np.' + name)
             if name in ('asarray', 'array'):
                 def asarr(v, *a, **k):
@@ -526,73 +535,79 @@ class KH(Hooks):
                         dt = a[0]
                     if dt is not None and not (isinstance(dt, Opaque) and
                                                dt.desc == 'object'):
-                        return KArr(as_kind(dt))
+                        return KArr(as_np_dt(dt))
                     if isinstance(v, (list, tuple)) and v and not \
                             isinstance(v[0], KArr):
-                        return KArr(kjoin(*[kind_of(x)[0] for x in v]))
+                        return KArr(_rnp.result_type(
+                            *[np_operand(x) for x in v]))
                     return v
                 return Builtin('np.' + name, asarr)
             if name == 'searchsorted':
-                return Builtin('np.searchsorted', lambda *a, **k: KArr('i'))
+                def ss(cvec, xi, **k):
+                    self.search_dt.append(xi.dt if isinstance(xi, KArr)
+                                          else None)
+                    return KArr('intp')
+                return Builtin('np.searchsorted', ss)
             if name == 'where':
                 def where(cond, *a):
                     if not a:
-                        return (KArr('i'),)
-                    return KArr(kjoin(*[kind_of(x)[0] for x in a]))
+                        return (KArr('intp'),)
+                    return KArr(_rnp.result_type(*[np_operand(x)
+                                                   for x in a]))
                 return Builtin('np.where', where)
             if name == 'copy':
-                return Builtin('np.copy', lambda a, **k: KArr(a.kind))
+                return Builtin('np.copy', lambda a, **k: KArr(a.dt))
             if name in ('zeros', 'empty', 'ones'):
                 def mk(shape, *a, **k):
                     dt = k.get('dtype', a[0] if a else None)
-                    return KArr('f' if dt is None else as_kind(dt))
+                    return KArr('float64' if dt is None else as_np_dt(dt))
                 return Builtin('np.' + name, mk)
             if name in ('result_type', 'promote_types'):
                 def rt(*a):
-                    ks = []
+                    ops = []
                     for x in a:
                         try:
-                            ks.append(as_kind(x))
+                            ops.append(as_np_dt(x))
                         except Undecided:
-                            ks.append(kind_of(x)[0])
-                    return KDt(kjoin(*ks))
+                            ops.append(np_operand(x))
+                    return KDt(_rnp.result_type(*ops))
                 return Builtin('np.' + name, rt)
             if name == 'issubdtype':
                 def isd(d, t):
-                    k = as_kind(d)
-                    td = t.desc if isinstance(t, Opaque) else ''
-                    if 'floating' in td:
-                        return k == 'f'
-                    if 'inexact' in td:
-                        return k in 'fc'
-                    if 'integer' in td:
-                        return k == 'i'
-                    if 'number' in td:
-                        return True
-                    raise Undecided('np.issubdtype(_, %r)' % (t,))
+                    if isinstance(t, Opaque) and t.desc.startswith('np.'):
+                        tt = getattr(_rnp, t.desc[3:])
+                    else:
+                        tt = as_np_dt(t)
+                    return bool(_rnp.issubdtype(as_np_dt(d), tt))
                 return Builtin('np.issubdtype', isd)
-            if name in ('floating', 'inexact', 'integer', 'number',
-                        'complexfloating'):
-                return Opaque('np.' + name)
+            if name == 'can_cast':
+                return Builtin('np.can_cast', lambda a, b, casting='safe':
+                               bool(_rnp.can_cast(
+                                   a.dt if isinstance(a, KArr)
+                                   else as_np_dt(a), as_np_dt(b), casting)))
             if name == 'dtype':
-                return Builtin('np.dtype', lambda d: KDt(as_kind(d)))
-        if isinstance(obj, KDt) and name == 'kind':
-            return obj.kind
+                return Builtin('np.dtype', lambda d: KDt(as_np_dt(d)))
+        if isinstance(obj, KDt):
+            if name in ('kind', 'itemsize', 'char', 'name'):
+                return getattr(obj.dt, name)
+            if name == 'type':
+                return Opaque('np.' + obj.dt.name)
         return NotImplemented
 
     def on_subscript(self, interp, obj, idx):
         if isinstance(obj, KArr):
-            return KArr(obj.kind)
+            return KArr(obj.dt)
         return NotImplemented
+
+    def result(self, op, l, r):
+        dt = _rnp.result_type(np_operand(l), np_operand(r))
+        if op is ast.Div and dt.kind in 'biu':
+            dt = _rnp.dtype('float64')
+        return dt
 
     def on_binop(self, interp, op, l, r):
         if isinstance(l, KArr) or isinstance(r, KArr):
-            (kl, wl), (kr, wr) = kind_of(l), kind_of(r)
-            # weak Python scalars promote only across kinds
-            k = kjoin(kl, kr)
-            if op is ast.Div and KORD[k] < KORD['f']:
-                k = 'f'
-            return KArr(k)
+            return KArr(self.result(op, l, r))
         return NotImplemented
 
     def on_call(self, interp, f, args, kwargs, node):
@@ -602,20 +617,20 @@ class KH(Hooks):
                                               'is_int_dtype',
                                               'is_complex_floating_dtype',
                                               'is_numeric_dtype'):
-            k = as_kind(args[0])
-            return {'is_real_dtype': k in 'bif',
+            k = as_np_dt(args[0]).kind
+            return {'is_real_dtype': k in 'biuf',
                     'is_real_floating_dtype': k == 'f',
                     'is_floating_dtype': k in 'fc',
-                    'is_int_dtype': k == 'i',
+                    'is_int_dtype': k in 'iu',
                     'is_complex_floating_dtype': k == 'c',
-                    'is_numeric_dtype': True}[f.name]
+                    'is_numeric_dtype': k in 'biufc'}[f.name]
         return NotImplemented
 
 
 class KInterp(Interp):
     def cmp1(self, op, l, r, node):
         if isinstance(l, KArr) or isinstance(r, KArr):
-            return KArr('b')
+            return KArr('bool')
         return Interp.cmp1(self, op, l, r, node)
 
     def assign(self, t, v, scope, func):
@@ -631,45 +646,47 @@ class KInterp(Interp):
             cur = self.ev(s.target, scope, func)
             if isinstance(cur, KArr):
                 v = self.ev(s.value, scope, func)
-                kv, weak = kind_of(v)
-                res = kjoin(cur.kind, kv)
-                if isinstance(s.op, ast.Div) and KORD[res] < KORD['f']:
-                    res = 'f'
-                if KORD[res] > KORD[cur.kind]:
+                res = self.hooks.result(type(s.op), cur, v)
+                if not _rnp.can_cast(res, cur.dt, 'same_kind'):
                     # ufunc in-place output casting is 'same_kind'
                     self.hooks.events.append(
-                        (s.lineno, ast.unparse(s), cur.kind, res))
+                        (s.lineno, ast.unparse(s), str(cur.dt), str(res)))
                     raise PyRaise('UFuncTypeError', s)
                 return
         return Interp.augassign(self, s, scope, func)
 
 
-def kind_run(model, cls, schemes, vkind):
-    """Abstract run of an interpolator class on a value array of dtype kind
-    ``vkind`` (out-of-place call).  Returns ('ok', result kind) or
+def kind_run(model, cls, schemes, vdt):
+    """Abstract run of an interpolator class on a value array of dtype
+    ``vdt`` with float64 nodes and float64 query points (out-of-place call).
+    Returns ('ok', result dtype, dtypes of the searched points) or
     ('raise', name, line, stmt)."""
-    hooks = KH(vkind)
+    hooks = KH(vdt)
 
     def once(assume):
         I = KInterp(model, assume, hooks)
-        args = [[KArr('f')], KArr(vkind), 'meshgrid']
+        args = [[KArr('float64')], KArr(vdt), 'meshgrid']
         if cls == '_PerAxisInterpolator':
             args.append(list(schemes))
         inst = I.instantiate(model.get(cls), args, {})
         try:
             r = I.call(I.getattr_value(inst, '__call__'),
-                       [(KArr('f'),)], {})
+                       [(KArr('float64'),)], {})
         except PyRaise as e:
             n = e.node
             return ('raise', e.name, getattr(n, 'lineno', None),
                     ast.unparse(n) if n is not None else '')
         if not isinstance(r, KArr):
             raise Undecided('result %r' % (r,))
-        return ('ok', r.kind)
+        return ('ok', r.dt, list(hooks.search_dt))
     leaves = explore(once, limit=8)
     if len(leaves) != 1:
         raise Undecided('%d paths' % len(leaves))
     return leaves[0][1]
+
+
+VALUE_DTYPES = ['float64', 'float32', 'complex128', 'complex64', 'int64',
+                'int32', 'int16', 'int8', 'uint8']
 
 
 def find_indices(model, case):
@@ -893,30 +910,51 @@ def check(ctx):
             rep.holds('R2', how, 'values only selected, never combined '
                       '(%d cases)' % okc)
 
-    # ---- R5 dtype closure ------------------------------------------------------
+    # ---- R5 dtype closure and precision -------------------------------------------
     n5 = 0
     for cls, sch in [('_NearestInterpolator', ('nearest',)),
                      ('_LinearInterpolator', ('linear',)),
                      ('_PerAxisInterpolator', ('nearest',)),
                      ('_PerAxisInterpolator', ('linear',))]:
-        for vk in 'ifc':
-            r = kind_run(model, cls, sch, vk)
+        for vdt in VALUE_DTYPES:
+            r = kind_run(model, cls, sch, vdt)
             n5 += 1
-            key = '%s[%s]:%s' % (cls, sch[0], {'i': 'integer', 'f': 'float',
-                                                'c': 'complex'}[vk])
+            key = '%s[%s]:%s' % (cls, sch[0], vdt)
             if r[0] == 'raise':
                 rep.violation('R5', key, 'out-of-place evaluation raises %s '
                               'at `%s`: the accumulator cannot hold the '
                               'weighted sum' % (r[1], r[3]), DU, r[2])
                 continue
-            want = vk if cls == '_NearestInterpolator' else kjoin(vk, 'f')
-            if r[1] != want:
-                rep.violation('R5', key, 'result dtype kind %s, expected %s'
-                              % (r[1], want), DU)
+            rdt, sdts = r[1], r[2]
+            probs = []
+            vd = _rnp.dtype(vdt)
+            if cls == '_NearestInterpolator':
+                if rdt != vd:
+                    probs.append('result dtype %s, the values have %s'
+                                 % (rdt, vd))
             else:
-                rep.holds('R5', key, 'all in-place ufuncs closed; result '
-                          'kind %s' % r[1])
-    rep.floor('R5', 'dtype-kind runs', n5, 12)
+                # a weighted sum: inexact, and not narrower than both the
+                # values and single precision
+                if rdt.kind not in 'fc' or not _rnp.can_cast(
+                        vd, rdt, 'same_kind') or (
+                            vd.kind in 'fc' and rdt != vd) or (
+                                vd.kind in 'iu' and rdt.itemsize < 8):
+                    probs.append('result dtype %s for %s values' % (rdt, vd))
+            # the query points (float64) must reach the node search and the
+            # distance computation without loss of precision
+            for sd in sdts:
+                if sd is None or not _rnp.can_cast('float64', sd, 'safe'):
+                    probs.append('the float64 query points are cast to %s '
+                                 'before the node search' % sd)
+                    break
+            if not sdts:
+                probs.append('no node search observed')
+            if probs:
+                rep.violation('R5', key, '; '.join(probs), DU)
+            else:
+                rep.holds('R5', key, 'in-place ufuncs closed; result %s; '
+                          'points searched as %s' % (rdt, sdts[0]))
+    rep.floor('R5', 'dtype runs', n5, 36)
 
     # ---- R6 forwarding -----------------------------------------------------------
     forwarding(rep, model)
